@@ -554,7 +554,9 @@ REGION_OTHER = {
   (TTS, "showBackground"): ["always", "whenActive"], (TTS, "overflow"): ["hidden", "visible"], (TTS, "displayAlign"): ["before", "center", "after"],
   (TTS, "writingMode"): ["lrtb", "rltb", "lr", "rl"], (TTS, "position"): ["center", "left 10% top 10%", "10% 20%"],
 }
-TEXTS = ["Hello", "a b", " lead", "trail ", "  two  spaces  ", "x\ny", "\n   ", " ", "tab\tbed", "été", "&<>", "  \n  deep  \n ", "Z"]
+TEXTS = ["Hello", "a b", " lead", "trail ", "  two  spaces  ", "x\ny", "\n   ", " ", "tab\tbed", "été", "&<>", "  \n  deep  \n ", "Z",
+         # characters that Python calls white space but XML / TTML do not (only TAB, LF, CR, SPACE are): ordinary text
+         "a\u00a0\u00a0b", "\u3000lead", "trail\u3000", "x\u2003 y", " \u00a0 ", "p\u2028q", "n\u0085m\u2029", "\u3000", "\u202f9", "\U0001f600 \U00020000"]
 GRID = [Fraction(x, 2) for x in range(0, 13)]
 DURS = [Fraction(1, 2), Fraction(1), Fraction(3, 2), Fraction(2), Fraction(3), Fraction(5)]
 
@@ -742,12 +744,28 @@ class Gen:
         kids.append("\n  ")
     return mk("div", a, kids)
 
+  def ignorable(self):
+    """an element that carries no content: <metadata>, a ttm: element, an element of a foreign namespace (with text and children of
+    its own, which are not content either); the character data that FOLLOWS it is content like any other"""
+    r = self.r
+    k = r.randrange(4)
+    if k == 0:
+      return mk("metadata", {}, [mk("title", {}, ["a title"], ns="http://www.w3.org/ns/ttml#metadata")])
+    if k == 1:
+      return mk("desc", {}, ["a description"], ns="http://www.w3.org/ns/ttml#metadata")
+    if k == 2:
+      return mk("note", {"kind": "editorial"}, ["not content ", mk("span", {}, ["nor this"]), " nor that"], ns="http://example.com/foreign")
+    return mk("metadata", {q(XML, "id"): self.nid()})
+
   def inline_content(self, seq, depth):
     r = self.r
     kids = []
     for _ in range(r.choice([1, 1, 2, 3, 4])):
       x = r.random()
-      if x < 0.45:
+      if x < 0.05:
+        kids.append(self.ignorable())
+        kids.append(r.choice(self.cfg["texts"]))        # its tail
+      elif x < 0.45:
         kids.append(r.choice(self.cfg["texts"]))
       elif x < 0.45 + self.cfg["p_br"]:
         kids.append(mk("br", {q(XML, "id"): self.nid()} if r.random() < 0.5 else {}))
